@@ -18,7 +18,10 @@ def profile_mp(z, low, high, width, offset):
     """(phi, dphi/dz) of  phi = low + (high-low)/2 (1 + tanh(z/width + offset))  at 40
     digits; the derivative is mp.diff of phi (Richardson-extrapolated differences), not a
     formula.  All inputs are taken as the exact binary floats the code received."""
-    with mp.workdps(DPS):
+    # far in the tail phi - phi(inf) ~ e^{-2|x|}: differencing phi resolves the derivative
+    # only if the working precision carries those extra 0.87|x| digits
+    xabs = abs(float(z) / float(width) + float(offset))
+    with mp.workdps(DPS + int(0.9 * xabs) + 5):
         lo, hi, w, d = mp.mpf(float(low)), mp.mpf(float(high)), mp.mpf(float(width)), \
             mp.mpf(float(offset))
 
